@@ -4,7 +4,7 @@
    dims to a StridePattern with all its error branches, canonicalize, streamer word semantics), tied to
    the code by the L1 correspondence of harness/props/c02.py (real dart-layout-resolution and
    convert-dart-to-snax-stream passes on generated ops). *)
-From Snax Require Import Base.Prelude Base.ListAux Model.C02Stream Proofs.C02StreamProofs Proofs.C02CanonProofs.
+From Snax Require Import Base.Prelude Base.ListAux Model.C02Stream Proofs.C02StreamProofs Proofs.C02CanonProofs Model.C02Gemmx Proofs.C02GemmxProofs.
 
 (* 1. Layout resolution (repaired code: unit response minus zero response): whenever layout∘schedule is
       linear on the iteration box — any coefficients, any constant term (static offsets included) —
@@ -84,3 +84,18 @@ Proof.
   exact (pattern_bytes_eq elsize bcast spats dims p Hok Hp).
 Qed.
 Print Assumptions C02_final_pattern_bytes_eq.
+
+(* 4. gemmx set_stride_patterns (all five shapes: matmul i32/i8, gemm i32/i8, rescale-only): five slots;
+      every operand of the op is streamed by a slot that keeps its temporal bounds and strides; every
+      other slot is disabled (a zero bound: no word is touched, for any spatial geometry) or reads the
+      zero address. (The rescale-only shape overwrites the spatial strides of C/D32 by [8, 64].) *)
+Theorem C02_disabled_no_words : forall p spats, disabledb p = true -> pattern_words p spats = [].
+Proof. exact disabled_no_words. Qed.
+Print Assumptions C02_disabled_no_words.
+Theorem C02_gemmx_customise_sound :
+  forall k ser sd2 ps out, gemmx_customise k ser sd2 ps = Some out ->
+  List.length out = 5%nat /\ Forall (slot_ok ps) out /\
+  forall i p, nth_error ps i = Some p ->
+    exists q, In (q, SOp i) out /\ sp_ub q = sp_ub p /\ sp_ts q = sp_ts p.
+Proof. exact gemmx_customise_sound. Qed.
+Print Assumptions C02_gemmx_customise_sound.
